@@ -56,6 +56,7 @@ func (l *recvLedger) spend(s uint32, n int64) {
 func TestC14(t *testing.T) {
 	r := vf.Begin(t, "C14")
 	defer r.End()
+	defer perturbReport(r)
 	r.Describe("a conforming sender (the scripted peer sends only what its ledger of the receiver's windows allows, and waits at quiescence otherwise) against both roles in synctest bubbles. Server role: 1-6 concurrent uploads with PRNG chunk/padding patterns (padded empty frames included) and interleavings, mixed with uploads that end in a stream error "+
 		"(body over the limit declared/undeclared, content-length mismatch, peer RST mid-body, refused stream) whose DATA is still in flight after the server's RST_STREAM, plus amplification runs (hundreds of offending streams carrying padded DATA against a 1 KiB body limit). Client role: 1-6 downloads with the same patterns, streams the caller cancelled while the server keeps sending, padded frames with empty data, amplified likewise. "+
 		"Monitors: every WINDOW_UPDATE increment is 1..2^31-1 and no window exceeds 2^31-1; at every quiescent point a sender that still has a byte to send on a live stream has stream and connection window >= 1 (otherwise it is starved for ever); all well-formed transfers complete. Distinct = distinct (role, pattern, offence mix, amplification) vectors.",
